@@ -26,6 +26,10 @@ type Op func(args [][]byte) string
 
 var Ops = map[string]Op{}
 
+// Domain restricts the inputs of an op (e.g. valid UTF-8 where encoding/json is involved);
+// the minimiser never leaves it.
+var Domain = map[string]func(args [][]byte) bool{}
+
 type Finding struct {
 	ID       string   `json:"id"`
 	Property string   `json:"property"`
@@ -203,6 +207,9 @@ func (c *Ctx) minimise(w int, op string, args [][]byte) [][]byte {
 	}
 	still := func(a0 []byte) bool {
 		as := append([][]byte{a0}, args[1:]...)
+		if dom := Domain[op]; dom != nil && !dom(as) {
+			return false
+		}
 		impl := c.Impl(w, op, as...)
 		v, _, _ := c.Tie(w, op, impl, as...)
 		return v == Violation
